@@ -1,14 +1,25 @@
 (* C04 — merged search over several shards / nodes behaves like one search over
    the union.  Only statements, `exact`, examples, Print Assumptions.
 
-   Proved here: the cursor part ("every cursor the node returns is the index
-   key of the last item", all primary attribute classes).  The merge part
-   (MergeSearchResults = first `lim` of the de-duplicated union in (stored
-   value, ID) order) is NOT proved: the k-way merge loop is not modelled; the
-   real function is compared with the reference `ref_merge` on every run. *)
-From Coq Require Import List NArith ZArith Bool Arith.
+   Proved here:
+   * the merge part: the model of MergeSearchResults (k-way loop as written, with
+     calcMaxUniqueSearchResults, de-duplication by ID and the `more` computation)
+     returns, for index-ordered pages of the shards' lists with exact flags, the
+     first `lim` items of the sorted duplicate-free union and an exact `more`
+     (C04_merge), under the premise that the comparator the loop uses agrees with
+     the byte order of the stored values; that premise is established per
+     attribute class (theorems C04_agree_id, _int, _text, _oid, _owner); C04_merge_int is the fully instantiated
+     numeric case.  C04_associate_absent_refuted shows the one place where the
+     premise failed in the code (repaired in the engine / server callers).
+   * the cursor part ("every cursor the node returns is the index key of the last
+     item", all primary attribute classes).
+   NOT proved: the chain over several requests (C04_chain) and the composition with
+   the shards' own search (that each shard returns an index-ordered page is C03's
+   statement and only partly proved there); Server.ProcessSearch is not modelled. *)
+From Coq Require Import List NArith ZArith Bool Arith Lia.
 Import ListNotations.
-From NV Require Import Gen.S256Consts Gen.SearchConsts S256.S256 Search.Search Search.SearchProofs Search.Merge Search.MergeProofs.
+From NV Require Import Gen.S256Consts Gen.SearchConsts S256.S256 Search.Search Search.SearchProofs Search.Merge Search.MergeProofs
+  Search.MergeLoop Search.MergeLoopProofs Search.MergeClasses.
 Local Open Scope N_scope.
 
 (* numeric primary attribute: CalculateCursor(String(z)) is the integer index key *)
@@ -39,6 +50,106 @@ Theorem C04_old_checksum_cursor_refuted :
   <> index_key key_checksum false (repeat 171 32) (repeat 1 32).
 Proof. exact old_sum_cursor_wrong. Qed.
 
+(* ---------- the merge ---------- *)
+
+(* the reference: `union rawv sets` is the strictly (stored value, ID)-sorted list of exactly the items of the sets *)
+Theorem C04_union_spec : forall (U : ritem -> Prop) (rawv : ritem -> bytes),
+  (forall a b : ritem, U a -> U b -> r_id a = r_id b -> a = b) ->
+  forall sets, Inv U rawv sets ->
+  Forall U (union rawv sets) /\ ssorted rawv (union rawv sets) /\
+  forall y, In y (union rawv sets) <-> In y (concat sets).
+Proof. exact union_spec. Qed.
+
+(* MergeSearchResults on pages: every set is the first `lim` items of its shard's
+   strictly index-ordered list (Inv), flag = "the shard has more"; `agree` = the
+   comparator used for this firstAttr / cmpInt equals byte order of the stored
+   values; an ID determines the item (copies are equal).  Result = first `lim`
+   items of the union, `more` exact. *)
+Theorem C04_merge : forall dec_oid dec_usr first_attr cmp_int (U : ritem -> Prop) (rawv : ritem -> bytes),
+  (forall a b, U a -> U b -> r_id a = r_id b -> a = b) ->
+  (forall a b, U a -> U b -> r_id a <> r_id b ->
+     attr_cmp dec_oid dec_usr first_attr cmp_int (r_attr a) (r_attr b) = Some (lex_compare (rawv a) (rawv b))) ->
+  (forall a, U a -> cmp_int = true -> split_int_string (r_attr a) <> None) ->
+  forall lim fulls, Inv U rawv fulls -> (0 < lim)%nat ->
+  merge_results dec_oid dec_usr lim first_attr cmp_int
+    (map (firstn lim) fulls) (map (fun f => Nat.ltb lim (length f)) fulls)
+  = Some (firstn lim (union rawv fulls), Nat.ltb lim (length (union rawv fulls))).
+Proof. exact merge_pages. Qed.
+
+(* the same for arbitrary index-ordered sets and flags that are only set on full sets *)
+Theorem C04_merge_sorted : forall dec_oid dec_usr first_attr cmp_int (U : ritem -> Prop) (rawv : ritem -> bytes),
+  (forall a b, U a -> U b -> r_id a = r_id b -> a = b) ->
+  (forall a b, U a -> U b -> r_id a <> r_id b ->
+     attr_cmp dec_oid dec_usr first_attr cmp_int (r_attr a) (r_attr b) = Some (lex_compare (rawv a) (rawv b))) ->
+  (forall a, U a -> cmp_int = true -> split_int_string (r_attr a) <> None) ->
+  forall lim sets mores, Inv U rawv sets -> (0 < lim)%nat ->
+  (any_true mores = true -> (lim <= length (union rawv sets))%nat) ->
+  merge_results dec_oid dec_usr lim first_attr cmp_int sets mores
+  = Some (firstn lim (union rawv sets), Nat.ltb lim (length (union rawv sets)) || any_true mores).
+Proof. exact merge_sorted. Qed.
+
+(* the agreement premise, per attribute class *)
+Theorem C04_agree_id : forall dec_oid dec_usr cmp_int text (ok : bytes -> Prop) a b,
+  cat_U text ok a -> cat_U text ok b -> r_id a <> r_id b ->
+  attr_cmp dec_oid dec_usr [] cmp_int (r_attr a) (r_attr b)
+  = Some (lex_compare (cat_raw (fun _ => []) a) (cat_raw (fun _ => []) b)).
+Proof. exact agree_id. Qed.
+
+Theorem C04_agree_int : forall dec_oid dec_usr first_attr (zof : bytes -> sint) a b, first_attr <> [] ->
+  let U := cat_U (fun i => to_string (zof i)) (fun i => canonical (zof i)) in
+  U a -> U b -> r_id a <> r_id b ->
+  attr_cmp dec_oid dec_usr first_attr true (r_attr a) (r_attr b)
+  = Some (lex_compare (cat_raw (fun i => encode (zof i)) a) (cat_raw (fun i => encode (zof i)) b)).
+Proof. exact agree_int. Qed.
+
+(* strings.Compare on the returned texts: user attributes and plain header fields
+   (text = stored value), and hex / UUID texts provided the encoder preserves order *)
+Theorem C04_agree_text : forall dec_oid dec_usr first_attr (text raw : bytes -> bytes) (ok : bytes -> Prop) a b,
+  first_attr <> [] -> is_oid_key first_attr = false -> bytes_eqb first_attr key_owner = false ->
+  (forall i j, ok i -> ok j -> lex_compare (text i) (text j) = lex_compare (raw i) (raw j)) ->
+  cat_U text ok a -> cat_U text ok b -> r_id a <> r_id b ->
+  attr_cmp dec_oid dec_usr first_attr false (r_attr a) (r_attr b)
+  = Some (lex_compare (cat_raw raw a) (cat_raw raw b)).
+Proof. exact agree_text. Qed.
+
+Theorem C04_agree_oid : forall dec_oid dec_usr first_attr (text raw : bytes -> bytes) a b,
+  is_oid_key first_attr = true ->
+  let U := cat_U text (fun i => dec_oid (text i) = Some (raw i)) in
+  U a -> U b -> r_id a <> r_id b ->
+  attr_cmp dec_oid dec_usr first_attr false (r_attr a) (r_attr b)
+  = Some (lex_compare (cat_raw raw a) (cat_raw raw b)).
+Proof. exact agree_oid. Qed.
+
+Theorem C04_agree_owner : forall dec_oid dec_usr (text raw : bytes -> bytes) a b,
+  let U := cat_U text (fun i => dec_usr (text i) = Some (raw i)) in
+  U a -> U b -> r_id a <> r_id b ->
+  attr_cmp dec_oid dec_usr key_owner false (r_attr a) (r_attr b)
+  = Some (lex_compare (cat_raw raw a) (cat_raw raw b)).
+Proof. exact agree_owner. Qed.
+
+(* fully instantiated: numeric primary filter (uses C05: print/parse round trip,
+   compareIntStrings = numeric order, byte order of encodings = numeric order) *)
+Theorem C04_merge_int : forall dec_oid dec_usr first_attr (zof : bytes -> sint) lim fulls, first_attr <> [] ->
+  let U := cat_U (fun i => to_string (zof i)) (fun i => canonical (zof i)) in
+  let rawv := cat_raw (fun i => encode (zof i)) in
+  Inv U rawv fulls -> (0 < lim)%nat ->
+  merge_results dec_oid dec_usr lim first_attr true
+    (map (firstn lim) fulls) (map (fun f => Nat.ltb lim (length f)) fulls)
+  = Some (firstn lim (union rawv fulls), Nat.ltb lim (length (union rawv fulls))).
+Proof.
+  intros dec_oid dec_usr first_attr zof lim fulls Hne U rawv HI Hlim.
+  apply (merge_pages dec_oid dec_usr first_attr true U rawv); auto.
+  - apply cat_id_inj.
+  - intros a b Ha Hb Hab. now apply agree_int.
+  - intros a Ha _. eapply precheck_int; eauto.
+Qed.
+
+(* where the premise failed: NOT_PRESENT on __NEOFS__ASSOCIATE with requested attributes -- the
+   shards return the empty text, the (unrepaired) engine asked the merge to compare it as object IDs *)
+Theorem C04_associate_absent_refuted : forall dec_oid dec_usr, dec_oid [] = None ->
+  merge_results dec_oid dec_usr 10 key_associate false [[RItem [1] []]; [RItem [2] []]] [false; false] = None.
+Proof. exact associate_absent_refuted. Qed.
+
 (* non-vacuity *)
 Example C04_example_int :
   calc_cursor id_codecs [78] M_GE (repeat 1 32) [[45; 53]]
@@ -49,5 +160,24 @@ Example C04_example_merge :
   = ([MItem [1] [5]; MItem [2] [5]], true).
 Proof. vm_compute. reflexivity. Qed.
 
+(* non-vacuity of C04_merge_int: IDs 1, 2, 3 with values 5, 5, 12; two shards [1;3] and [2;3], lim 2 *)
+Definition ex_zof (i : bytes) : sint := (false, match i with [3] => 12 | _ => 5 end).
+Definition ex_it (k : N) : ritem := RItem [k] (to_string (ex_zof [k])).
+Example C04_example_merge_int :
+  merge_results (fun _ => None) (fun _ => None) 2 [78] true
+    (map (firstn 2) [[ex_it 1; ex_it 3]; [ex_it 2; ex_it 3]]) (map (fun f => Nat.ltb 2 (length f)) [[ex_it 1; ex_it 3]; [ex_it 2; ex_it 3]])
+  = Some ([ex_it 1; ex_it 2], true).
+Proof.
+  rewrite (C04_merge_int (fun _ => None) (fun _ => None) [78] ex_zof); [vm_compute; reflexivity|discriminate| |lia].
+  repeat constructor; try (vm_compute; congruence); try (vm_compute; reflexivity).
+Qed.
+Example C04_example_engine_absent :
+  engine_first_attr [Filter key_associate M_NOT_PRESENT []] [key_associate] = [].
+Proof. reflexivity. Qed.
+
 Print Assumptions C04_cursor_roundtrip_int.
 Print Assumptions C04_cursor_roundtrip_partial.
+Print Assumptions C04_merge.
+Print Assumptions C04_merge_sorted.
+Print Assumptions C04_merge_int.
+Print Assumptions C04_agree_text.
